@@ -100,7 +100,7 @@ inductive COp
   | ping (k : Nat) | clonePing (k : Nat) | dropPing (k : Nat)
   | send (k v : Nat) | cloneSender (k : Nat) | dropSender (k : Nat)
   | write (f n : Nat) | read (f : Nat) | advance (n : Nat)
-  | setDeadline (k : Nat) (d : Int) | setInterest (k : Nat) (r w : Bool) (m : Mode) | dropDisp (k : Nat)
+  | setDeadline (k : Nat) (d : Option Int) | setInterest (k : Nat) (r w : Bool) (m : Mode) | dropDisp (k : Nat)
   | idle (i : Nat) | cancelIdle (i : Nat) | dropIdle (i : Nat)
   | churn (n : Nat)                      -- n times: insert a source without fds, remove it again
   deriving DecidableEq, Repr
@@ -593,7 +593,7 @@ def execC' (o : COp) : M Unit := do
     | some s =>
       if s.kind == .timer && s.kept then
         if (← get).running == some k then emit (.opRes o .borrowed)
-        else modSrc k fun s => { s with deadline := some d }
+        else modSrc k fun s => { s with deadline := d }
       else emit (.opRes o .nodisp)
     | none => emit (.opRes o .nodisp)
   | .setInterest k r w m =>
